@@ -30,7 +30,7 @@ m = {
     "setup_cmd": f"cd {V}/engine && {GOENV} go build -o {V}/bin/vcheck . && cd {V} && {GOENV} bin/vcheck warm",
     "hooks": {
         "guard": "verif",
-        "enable": "no hook is committed to /repo: at check time the working tree is copied to a scratch directory and every non-test file's imports of os / time / io/ioutil are swapped for seam packages (engine/shim) placed under internal/zzverif; the seam binary is checked against the plain build on a fixed trace",
+        "enable": "no hook is committed to /repo: at check time the working tree is copied to a scratch directory and every non-test file's imports of os / time / io/ioutil / path/filepath are swapped for seam packages (engine/shim) placed under internal/zzverif; the seam binary is checked against the plain build on a fixed trace",
         "baseline_off_cmd": f"cd /repo && {GOENV} go test -vet=off -count=1 ./...",
         "source_commits": [],
         "add_only": True,
